@@ -2,6 +2,7 @@ SPECIFICATION FairSpec
 CONSTANTS
   Threads = {1, 2}
   VarOf <- DiffVar2
+  LockOf <- DiffVar2
   Chunks <- Ch2
   SharedHandle = FALSE
   UseLock = TRUE
